@@ -281,7 +281,7 @@ PLAN["C15"] = {
     "rule": ("fault = the file ends after k bytes. (SmallAllOffsets) for each rapid-drawn small proving system (as C11; files of 3-12 KB) and BOTH formats: EVERY cut offset 0..len-1 through UnsafeReadFrom on a bytes reader (exhaustive per file), "
              "and every ~150th offset plus the last through ReadSystemFromFile on a truncated temp file. (Real) real systems of tens of MB (quick: insertion (1,1) raw; thorough: + compressed and deletion (3,2)): all offsets 0..8, each section "
              "boundary +-{0,1,2,7,8,9,63,64,65}, 1/2/9 bytes short of complete, and rapid-drawn offsets inside the proving-key, verifying-key and constraint-system sections, through the reader, ReadSystemFromFile, cuts at multiples of the 4 MiB read buffer through the file path, and the CLI commands "
-             "prove/verify/export-vk/convert-to-raw/start on a grid of cut points (with VALID parameters/proof on stdin, so that only the keys file can be at fault; a panic trace on stderr counts as a violation). Oracle: an error is returned (non-zero exit; 'start' never keeps running), no panic, an answer within 50x the time of a full read + 5 s; the complete file loads (positive control per file). "
+             "prove/verify/export-vk/convert-to-raw/start on a grid of cut points (with VALID parameters/proof on stdin, so that only the keys file can be at fault; a panic trace on stderr counts as a violation). Oracle: an error is returned (non-zero exit), no panic, the complete file loads (positive control per file), and no hang - a time limit alone is never a verdict: a read that is silent after 50x the time of a full read + 5 s is waited for three more minutes next to a control read of the complete file and reported as a hang only if the control came back promptly (else exit 2); 'start' is judged by a positive sign (the prover address accepts a connection) against the process exiting. "
              "Non-trivial = offset >= 8 (past the header); enumerated offsets are distinct by construction, drawn ones by SHA-1."),
     "assumptions": A_COMMON + ["only strict prefixes of valid files are in the domain; arbitrary corrupt bytes are not fed to the reader (gnark allocates from length prefixes)"],
     "technique": "fault enumeration over every truncation point of small files; structured and sampled truncation points of real files",
@@ -318,9 +318,8 @@ PLAN["C20"] = {
     "level": "exploration",
     "rule": ("rapid state machine on a FRESH in-process server (fresh registry) per case, real depth-3/batch-2 system: 1-6 steps from {send one request, send a concurrent burst of 2-8 requests while a scraper polls /metrics continuously, "
              "scrape now, wait-for-idle}. Requests come from the C09 grammar (all methods; valid, unsatisfiable, malformed, mis-shaped, gray bodies; thorough adds non-standard methods, labelled 'unknown'). Model = the client's tally "
-             "(lower-cased method, status code) -> number of completed responses. Oracle: at every wait-for-idle and at the end, /metrics is polled (<= 20 s, early exit; the counter is incremented after the response bytes are sent) until "
-             "http_requests_total{endpoint_pattern=\"/prove\"} equals the tally for every label pair with no extra pairs and http_requests_in_flight reads 0; every scrape (including those during bursts) answers 200 within 5 s on the metrics "
-             "address; no counter ever decreases between scrapes; when >= 3 scrapes completed strictly inside the lifetime of a request that returned a proof, at least one of them read in-flight >= 1. "
+             "(lower-cased method, status code) -> number of completed responses. Oracle: at every wait-for-idle and at the end, /metrics is polled (<= 90 s, early exit; the counter is incremented after the response bytes are sent) until "
+             "http_requests_total{endpoint_pattern=\"/prove\"} equals the tally for every label pair with no extra pairs and http_requests_in_flight reads 0; every scrape (including those during bursts) answers 200 on the metrics address - a slow scrape is not a verdict (client limit 150 s; during a burst a timed-out scrape is skipped); while the harness HOLDS requests in flight (half-uploaded bodies) a scrape that stays silent is asked again with minutes of patience and compared with a control scrape after the requests are released before 'unavailable' is reported; no counter ever decreases between scrapes; when >= 3 scrapes completed strictly inside the lifetime of a request that returned a proof, at least one of them read in-flight >= 1. "
              "Non-trivial = a history with a concurrent burst, or >= 2 distinct (method, code) pairs including a 200 and an error; distinct = SHA-1 of the canonical history."),
     "assumptions": A_COMMON + ["the in-flight >= 1 observation is only required when scrapes provably overlapped a proof (client-side timestamps with 50 ms margins), so scheduling noise cannot fail it"],
     "technique": "model-based stateful property testing (client-side tally vs. scraped Prometheus series), with concurrent bursts and polling to a fixed point",
